@@ -171,9 +171,14 @@ func checkPath(c pathCase) (msg string, class string) {
 	if !p.OK() {
 		return fmt.Sprintf("HARNESS: %q does not parse: %v", text, p.Err), "harness"
 	}
+	before := obs.Snapshot(data, func(string) bool { return true })
 	out := obs.Eval(r, context.Background(), p.Src.Expression)
 	if out.Panic != nil {
 		return fmt.Sprintf("%s panicked: %v", text, out.Panic), "panic"
+	}
+	// reading is reading: the caller's data (every entry, nested values included, with their Go types) is as it was
+	if after := obs.Snapshot(data, func(string) bool { return true }); after != before {
+		return fmt.Sprintf("evaluating the read-only path %s changed the caller's data:\nbefore %s\nafter  %s", text, before, after), "data-changed"
 	}
 	if outcome == "err" {
 		if out.Err == nil {
